@@ -92,7 +92,8 @@ fn main() {
     }));
     // structured larger diagrams (wide frontiers, many operations per layer, long chains): layering, evaluation, predicates
     let kmax = if quick { 5 } else { 7 };
-    let shapes = ohmc::props::structured::shapes(kmax);
+    let mut shapes = ohmc::props::structured::shapes(kmax);
+    shapes.extend(ohmc::props::structured::degree_probes(if quick { 6 } else { 9 }));
     ctx.run_slice(Slice::new(format!("structured-shapes[sizes 1..{}: {} diagrams; deviations <= {}]", kmax, shapes.len(), bound), shapes.len() as u64, |i, loc| {
         check_layer(&shapes[i as usize].1, bound, loc);
         check_predicates(&shapes[i as usize].1, bound, loc);
